@@ -4,25 +4,35 @@
 (*                                                                           *)
 (*   heap[a]      backing array a: a sequence of cells (length = capacity),  *)
 (*                a cell holds an entry id (0 = never written)               *)
-(*   tbl          the published slice <<array, len>> (atomic.Value)          *)
+(*   tbl          the published slice <<array, len, cap>> (atomic.Value);    *)
+(*                cap <= length of the array: Go's s[:i:i] caps it           *)
 (*   flt[e]       the filter inside entry object e (own atomic cell: routes  *)
 (*                and destinations are pointers, their filter is swapped     *)
 (*                under the entry's own lock)                                *)
 (*   admins       take the table mutex, Load, build the new slice, Store:    *)
-(*                  add     = Go append: in place when capacity allows       *)
-(*                            (writes a cell beyond every published length), *)
+(*                  add     = Go append: in place when len < cap (writes the *)
+(*                            cell len+1 of the shared array: harmless only  *)
+(*                            if no published slice ever covered that cell), *)
 (*                            otherwise a fresh array of doubled capacity    *)
-(*                  delete  = DeleteInPlace: append(s[:i], s[i+1:]...), i.e. *)
-(*                            the cells of the SHARED array are shifted left *)
-(*                            one by one (the pinned code);                  *)
-(*                            otherwise the survivors are copied into a      *)
-(*                            fresh array                                    *)
+(*                  delete  = the code: append(s[:i:i], s[i+1:]...), i.e.    *)
+(*                            the survivors are copied into a fresh array;   *)
+(*                            for the LAST entry nothing is appended: the    *)
+(*                            result is s[:n-1:n-1], the same array with the *)
+(*                            capacity capped (the next add reallocates)     *)
+(*                            TruncateTail (deviation): the last entry is    *)
+(*                            removed by s[:n-1], capacity NOT capped: the   *)
+(*                            next add appends in place into a cell that     *)
+(*                            older, longer published slices still cover     *)
+(*                            DeleteInPlace (deviation, the pinned code):    *)
+(*                            append(s[:i], s[i+1:]...), the cells of the    *)
+(*                            SHARED array are shifted left one by one       *)
 (*   dispatchers  Load the slice once (Go range evaluates it once), then     *)
 (*                visit cell 1..len one step at a time                       *)
 (*                                                                           *)
 (* Ghost variables: vers (the abstract list after every change, by the       *)
-(* sequential semantics of TableOps), what each dispatcher's snapshot held   *)
-(* when it was loaded, the admin results.                                    *)
+(* sequential semantics of TableOps), pub (every slice ever published with   *)
+(* the cells it had when it was published), what each dispatcher's snapshot  *)
+(* held when it was loaded, the admin results.                               *)
 EXTENDS TableOps, FiniteSets, TLC
 
 CONSTANTS InitN,         \* entries 1..InitN in the initial table
@@ -32,8 +42,11 @@ CONSTANTS InitN,         \* entries 1..InitN in the initial table
           NAdmin,        \* admin processes
           Classes,       \* metric classes (see TableOps: filter c accepts class c)
           OpKinds,       \* subset of {"add","delidx","delkey","updidx","updkey"}
-          DeleteInPlace, \* TRUE = the pinned delete
-          UseMutex       \* FALSE = deviation: admin operations do not lock
+          DeleteInPlace, \* TRUE = deviation: the pinned delete
+          TruncateTail,  \* TRUE = deviation: deleting the last entry publishes s[:n-1] (capacity not capped)
+          UseMutex,      \* FALSE = deviation: admin operations do not lock
+          CoarseAdmin    \* TRUE = restriction to the schedules of level A (TableSched, the replay): dispatchers
+                         \* take steps only between complete admin operations
 
 ASSUME InitCap >= InitN
 
@@ -46,26 +59,28 @@ NoOp == [op |-> "none", e |-> 0, f |-> 0, i |-> 0, k |-> 0]
 VARIABLES heap, tbl, flt, mutex, nops, nextId,
           apc, aop, aloc, anew, ak,
           dpc, dsnap, didx, dvis, dcls,
-          vers, dcont, dlo, dhi, results
+          vers, pub, dcont, dlo, dhi, results
 vars == <<heap, tbl, flt, mutex, nops, nextId, apc, aop, aloc, anew, ak,
-          dpc, dsnap, didx, dvis, dcls, vers, dcont, dlo, dhi, results>>
+          dpc, dsnap, didx, dvis, dcls, vers, pub, dcont, dlo, dhi, results>>
 avars == <<apc, aop, aloc, anew, ak>>
 dvars == <<dpc, dsnap, didx, dvis, dcls, dcont, dlo, dhi>>
 
 Cells(sl) == [i \in 1..sl[2] |-> heap[sl[1]][i]]
 Content(sl) == [i \in 1..sl[2] |-> [id |-> heap[sl[1]][i], f |-> flt[heap[sl[1]][i]]]]
 GrowCap(c) == IF c = 0 THEN 1 ELSE 2 * c
+Max(a, b) == IF a > b THEN a ELSE b
 
 Init ==
   /\ heap = << [i \in 1..InitCap |-> IF i <= InitN THEN i ELSE 0] >>
-  /\ tbl = <<1, InitN>>
+  /\ tbl = <<1, InitN, InitCap>>
   /\ flt = [e \in 1..MaxId |-> 0]
   /\ mutex = 0 /\ nops = 0 /\ nextId = InitN + 1
   /\ apc = [a \in Admin |-> "idle"] /\ aop = [a \in Admin |-> NoOp]
-  /\ aloc = [a \in Admin |-> <<1, 0>>] /\ anew = [a \in Admin |-> <<1, 0>>] /\ ak = [a \in Admin |-> 0]
-  /\ dpc = [d \in Disp |-> "idle"] /\ dsnap = [d \in Disp |-> <<1, 0>>] /\ didx = [d \in Disp |-> 0]
+  /\ aloc = [a \in Admin |-> <<1, 0, 0>>] /\ anew = [a \in Admin |-> <<1, 0, 0>>] /\ ak = [a \in Admin |-> 0]
+  /\ dpc = [d \in Disp |-> "idle"] /\ dsnap = [d \in Disp |-> <<1, 0, 0>>] /\ didx = [d \in Disp |-> 0]
   /\ dvis = [d \in Disp |-> <<>>] /\ dcls = [d \in Disp |-> 0]
   /\ vers = << [i \in 1..InitN |-> [id |-> i, f |-> 0]] >>
+  /\ pub = << [sl |-> <<1, InitN, InitCap>>, cells |-> [i \in 1..InitN |-> i]] >>
   /\ dcont = [d \in Disp |-> <<>>] /\ dlo = [d \in Disp |-> 0] /\ dhi = [d \in Disp |-> 0]
   /\ results = {}
 
@@ -91,7 +106,7 @@ ABegin(a, o) ==
   /\ flt' = IF o.op = "add" THEN [flt EXCEPT ![o.e] = o.f] ELSE flt   \* the new object is built before it is published
   /\ apc' = [apc EXCEPT ![a] = "work"] /\ aop' = [aop EXCEPT ![a] = o]
   /\ aloc' = [aloc EXCEPT ![a] = tbl]
-  /\ UNCHANGED <<heap, tbl, anew, ak, vers, results>> /\ UNCHANGED dvars
+  /\ UNCHANGED <<heap, tbl, anew, ak, vers, pub, results>> /\ UNCHANGED dvars
 
 \* 1-based target cell of a delete, 0 = none (error / unknown key)
 Target(a) ==
@@ -103,14 +118,14 @@ Target(a) ==
 
 AWork(a) ==
   /\ apc[a] = "work"
-  /\ LET s == aloc[a] arr == heap[s[1]] n == s[2] o == aop[a] IN
+  /\ LET s == aloc[a] arr == heap[s[1]] n == s[2] cp == s[3] o == aop[a] IN
      IF o.op = "add" THEN
-        /\ IF n < Len(arr)
+        /\ IF n < cp
            THEN /\ heap' = [heap EXCEPT ![s[1]][n + 1] = o.e]
-                /\ anew' = [anew EXCEPT ![a] = <<s[1], n + 1>>]
-           ELSE /\ heap' = Append(heap, [i \in 1..GrowCap(Len(arr)) |->
+                /\ anew' = [anew EXCEPT ![a] = <<s[1], n + 1, cp>>]
+           ELSE /\ heap' = Append(heap, [i \in 1..GrowCap(cp) |->
                                            IF i <= n THEN arr[i] ELSE IF i = n + 1 THEN o.e ELSE 0])
-                /\ anew' = [anew EXCEPT ![a] = <<Len(heap) + 1, n + 1>>]
+                /\ anew' = [anew EXCEPT ![a] = <<Len(heap) + 1, n + 1, GrowCap(cp)>>]
         /\ apc' = [apc EXCEPT ![a] = "store"]
         /\ UNCHANGED <<mutex, ak, results>>
      ELSE LET t == Target(a) IN
@@ -122,12 +137,16 @@ AWork(a) ==
         ELSE IF DeleteInPlace THEN
            /\ ak' = [ak EXCEPT ![a] = t] /\ apc' = [apc EXCEPT ![a] = "shift"]
            /\ UNCHANGED <<heap, anew, mutex, results>>
-        ELSE
-           /\ heap' = Append(heap, [i \in 1..(n - 1) |-> IF i < t THEN arr[i] ELSE arr[i + 1]])
-           /\ anew' = [anew EXCEPT ![a] = <<Len(heap) + 1, n - 1>>]
+        ELSE IF t = n THEN   \* the last entry: append(s[:n-1:n-1]) appends nothing, the array stays
+           /\ anew' = [anew EXCEPT ![a] = <<s[1], n - 1, IF TruncateTail THEN cp ELSE n - 1>>]
+           /\ apc' = [apc EXCEPT ![a] = "store"]
+           /\ UNCHANGED <<heap, mutex, ak, results>>
+        ELSE LET nc == Max(2 * (t - 1), n - 1) IN   \* append beyond the capped capacity t-1: fresh array
+           /\ heap' = Append(heap, [i \in 1..nc |-> IF i < t THEN arr[i] ELSE IF i < n THEN arr[i + 1] ELSE 0])
+           /\ anew' = [anew EXCEPT ![a] = <<Len(heap) + 1, n - 1, nc>>]
            /\ apc' = [apc EXCEPT ![a] = "store"]
            /\ UNCHANGED <<mutex, ak, results>>
-  /\ UNCHANGED <<tbl, flt, nops, nextId, aop, aloc, vers>> /\ UNCHANGED dvars
+  /\ UNCHANGED <<tbl, flt, nops, nextId, aop, aloc, vers, pub>> /\ UNCHANGED dvars
 
 \* memmove of append(s[:i], s[i+1:]...) inside the shared array, one cell per step
 AShift(a) ==
@@ -137,15 +156,16 @@ AShift(a) ==
      THEN /\ heap' = [heap EXCEPT ![s[1]][k] = heap[s[1]][k + 1]]
           /\ ak' = [ak EXCEPT ![a] = k + 1]
           /\ UNCHANGED <<anew, apc>>
-     ELSE /\ anew' = [anew EXCEPT ![a] = <<s[1], n - 1>>]
+     ELSE /\ anew' = [anew EXCEPT ![a] = <<s[1], n - 1, s[3]>>]
           /\ apc' = [apc EXCEPT ![a] = "store"]
           /\ UNCHANGED <<heap, ak>>
-  /\ UNCHANGED <<tbl, flt, mutex, nops, nextId, aop, aloc, vers, results>> /\ UNCHANGED dvars
+  /\ UNCHANGED <<tbl, flt, mutex, nops, nextId, aop, aloc, vers, pub, results>> /\ UNCHANGED dvars
 
 AStore(a) ==
   /\ apc[a] = "store"
   /\ tbl' = anew[a]
   /\ vers' = Append(vers, ApplyOp(vers[Len(vers)], aop[a]))
+  /\ pub' = Append(pub, [sl |-> anew[a], cells |-> Cells(anew[a])])
   /\ results' = results \cup {[op |-> aop[a], v |-> Len(vers), err |-> FALSE]}
   /\ mutex' = IF UseMutex THEN 0 ELSE mutex
   /\ apc' = [apc EXCEPT ![a] = "idle"]
@@ -165,28 +185,30 @@ AUpd(a, o) ==
      ELSE /\ flt' = [flt EXCEPT ![c[t]] = o.f]
           /\ vers' = Append(vers, ApplyOp(vers[Len(vers)], o))
           /\ results' = results \cup {[op |-> o, v |-> Len(vers), err |-> FALSE]}
-  /\ UNCHANGED <<heap, tbl, mutex, nextId>> /\ UNCHANGED avars /\ UNCHANGED dvars
+  /\ UNCHANGED <<heap, tbl, mutex, nextId, pub>> /\ UNCHANGED avars /\ UNCHANGED dvars
 
 -----------------------------------------------------------------------------
 (* dispatchers *)
+Quiet == CoarseAdmin => \A a \in Admin : apc[a] = "idle"
+
 DLoad(d, c) ==
-  /\ dpc[d] = "idle"
+  /\ dpc[d] = "idle" /\ Quiet
   /\ dpc' = [dpc EXCEPT ![d] = "run"] /\ dsnap' = [dsnap EXCEPT ![d] = tbl]
   /\ didx' = [didx EXCEPT ![d] = 0] /\ dvis' = [dvis EXCEPT ![d] = <<>>] /\ dcls' = [dcls EXCEPT ![d] = c]
   /\ dcont' = [dcont EXCEPT ![d] = Cells(tbl)] /\ dlo' = [dlo EXCEPT ![d] = Len(vers)]
-  /\ UNCHANGED <<heap, tbl, flt, mutex, nops, nextId, vers, dhi, results>> /\ UNCHANGED avars
+  /\ UNCHANGED <<heap, tbl, flt, mutex, nops, nextId, vers, pub, dhi, results>> /\ UNCHANGED avars
 
 DVisit(d) ==
-  /\ dpc[d] = "run" /\ didx[d] < dsnap[d][2]
+  /\ dpc[d] = "run" /\ didx[d] < dsnap[d][2] /\ Quiet
   /\ LET e == heap[dsnap[d][1]][didx[d] + 1] IN
        dvis' = [dvis EXCEPT ![d] = IF Accepts(flt[e], dcls[d]) THEN Append(@, e) ELSE @]
   /\ didx' = [didx EXCEPT ![d] = @ + 1]
-  /\ UNCHANGED <<heap, tbl, flt, mutex, nops, nextId, vers, dpc, dsnap, dcls, dcont, dlo, dhi, results>> /\ UNCHANGED avars
+  /\ UNCHANGED <<heap, tbl, flt, mutex, nops, nextId, vers, pub, dpc, dsnap, dcls, dcont, dlo, dhi, results>> /\ UNCHANGED avars
 
 DEnd(d) ==
-  /\ dpc[d] = "run" /\ didx[d] = dsnap[d][2]
+  /\ dpc[d] = "run" /\ didx[d] = dsnap[d][2] /\ Quiet
   /\ dpc' = [dpc EXCEPT ![d] = "done"] /\ dhi' = [dhi EXCEPT ![d] = Len(vers)]
-  /\ UNCHANGED <<heap, tbl, flt, mutex, nops, nextId, vers, dsnap, didx, dvis, dcls, dcont, dlo, results>> /\ UNCHANGED avars
+  /\ UNCHANGED <<heap, tbl, flt, mutex, nops, nextId, vers, pub, dsnap, didx, dvis, dcls, dcont, dlo, results>> /\ UNCHANGED avars
 
 Next ==
   \/ \E a \in Admin : \/ \E o \in OpChoices : ABegin(a, o) \/ AUpd(a, o)
@@ -198,8 +220,10 @@ Spec == Init /\ [][Next]_vars
 -----------------------------------------------------------------------------
 (* properties *)
 
-\* cells reachable from a loaded snapshot never change
-SnapshotImmutable == \A d \in Disp : dpc[d] = "run" => Cells(dsnap[d]) = dcont[d]
+\* the cells of ANY slice that was ever published never change (a dispatcher may have loaded it and
+\* still be iterating, however many operations ago that was); this includes every loaded snapshot
+SnapshotImmutable == /\ \A i \in 1..Len(pub) : Cells(pub[i].sl) = pub[i].cells
+                     /\ \A d \in Disp : dpc[d] = "run" => Cells(dsnap[d]) = dcont[d]
 
 \* every dispatch is processed against one complete version of the table
 Atomic == \A d \in Disp : dpc[d] = "done" => AtomicObs(dvis[d], dcls[d], dlo[d], dhi[d], vers)
@@ -218,6 +242,6 @@ ViewOK == Content(tbl) = vers[Len(vers)]
 \* an operation is refused exactly when the sequential semantics say so
 ResultsOK == \A r \in results : r.err = OpErr(vers[r.v], r.op)
 
-TypeOK == /\ tbl[2] <= Len(heap[tbl[1]])
+TypeOK == /\ tbl[2] <= tbl[3] /\ tbl[3] <= Len(heap[tbl[1]])
           /\ \A d \in Disp : didx[d] <= dsnap[d][2]
 =============================================================================
